@@ -545,6 +545,18 @@ def run(pid, tier):
     # (e) the per-process runner: what it hands to the process and that both streams pass through render_output
     from props import exec_claims
     exec_claims.NAT = NAT
+    hsec = exec_claims.h_script_sections(prog)
+    ressec = e2.run_with_raw(prog, hsec, max_witnesses=2)
+    for model, r in ressec.raw_witnesses[:2]:
+        # end to end: CR CR LF from a real command through the real single-script executor with keep_crlf off — one pair is translated, not two
+        nk, nv = NAT.call("script_crlf", [])
+        if nk == "return" and nv.get("stdout") != list(b"a\r\n"):
+            rep.violation("script-executor:output-transformed-twice", "single-script executor, keep_crlf off: `printf 'a\\r\\r\\n'` is recorded as %r (expected b'a\\r\\n': one CR LF pair "
+                          "becomes LF)" % bytes(nv.get("stdout") or []), {"kind": "eval", "fn": "script_crlf", "args": [], "native": [nk, nv], "harness": hsec.name})
+        else:
+            rep.violation("script-executor:sections:mir-only", "BashScriptExecutor::execute_all does not hand a test case the bytes of its section (decided on its MIR for %d test case(s); "
+                          "the end-to-end probe with CR CR LF behaves)" % r.ctx.notes["n"], {"kind": "mir-only", "harness": hsec.name})
+    e2.record(rep, hsec, ressec)
     hr = exec_claims.h_subprocess_runner(prog)
     resr = e2.run_with_raw(prog, hr, max_witnesses=3)
     exec_claims.replay_runner(rep, hr, resr)
